@@ -193,31 +193,31 @@ type vfStreamH struct {
 }
 
 type vfSim struct {
-	t       *testing.T
-	o       *vfOrch
-	net     *vfNet
-	rnd     *vfRand
-	sc      *vfE1
-	as      [2]*Association
-	hsErr   [2]error
-	hsDone  [2]bool
-	hsAt    [2]time.Duration
-	lf      logging.LoggerFactory
-	buf     *vfBufLF
-	mu      sync.Mutex
-	reads   []vfReadRec
-	writes  []*vfWriteRec
-	calls   []*vfCall
-	handles [2]map[*Stream]*vfStreamH
-	bySID   [2]map[uint16][]*vfStreamH
-	pauseCh [2]chan struct{}
-	nextID  int
-	base    time.Time // instant both sides were established
-	rdBuf   int
-	notes   []string
+	t        *testing.T
+	o        *vfOrch
+	net      *vfNet
+	rnd      *vfRand
+	sc       *vfE1
+	as       [2]*Association
+	hsErr    [2]error
+	hsDone   [2]bool
+	hsAt     [2]time.Duration
+	lf       logging.LoggerFactory
+	buf      *vfBufLF
+	mu       sync.Mutex
+	reads    []vfReadRec
+	writes   []*vfWriteRec
+	calls    []*vfCall
+	handles  [2]map[*Stream]*vfStreamH
+	bySID    [2]map[uint16][]*vfStreamH
+	pauseCh  [2]chan struct{}
+	nextID   int
+	base     time.Time // instant both sides were established
+	rdBuf    int
+	notes    []string
 	accepted [2]int
-	role     [2]int // 0 default (side 0 client, side 1 server), 1 client, 2 server
-	onRead  func(r *vfReadRec) // called under s.mu
+	role     [2]int             // 0 default (side 0 client, side 1 server), 1 client, 2 server
+	onRead   func(r *vfReadRec) // called under s.mu
 }
 
 func newVfSim(t *testing.T, sc *vfE1, verbose bool) *vfSim {
@@ -483,6 +483,51 @@ func (s *vfSim) reader(h *vfStreamH) {
 	}
 }
 
+// drainReads synchronously reads every message that is readable right now on every
+// stream of the side (used with NoRead: no background reader goroutines). Orchestrator
+// goroutine only. Returns the number of messages read.
+func (s *vfSim) drainReads(side int) int {
+	s.mu.Lock()
+	var hs []*vfStreamH
+	for _, l := range s.bySID[side] {
+		hs = append(hs, l...)
+	}
+	s.mu.Unlock()
+	sort.Slice(hs, func(i, j int) bool {
+		if hs[i].sid != hs[j].sid {
+			return hs[i].sid < hs[j].sid
+		}
+		return hs[i].gen < hs[j].gen
+	})
+	buf := make([]byte, s.rdBuf)
+	n := 0
+	for _, h := range hs {
+		for {
+			h.s.lock.RLock()
+			ok := h.s.reassemblyQueue.isReadable()
+			h.s.lock.RUnlock()
+			if !ok {
+				break
+			}
+			k, ppi, err := h.s.ReadSCTP(buf)
+			r := vfReadRec{T: s.net.now(), Side: side, SID: h.sid, Gen: h.gen, N: k, PPI: uint32(ppi)}
+			if err != nil {
+				r.Err = err.Error()
+			} else {
+				r.Hash = vfHash64(buf[:k])
+			}
+			s.mu.Lock()
+			s.reads = append(s.reads, r)
+			s.mu.Unlock()
+			if err != nil {
+				break
+			}
+			n++
+		}
+	}
+	return n
+}
+
 func (s *vfSim) pause(side int) {
 	s.mu.Lock()
 	if s.pauseCh[side] == nil {
@@ -689,17 +734,17 @@ func (s *vfSim) closeAll() {
 // ---- white-box peek (only at quiescent points) ----
 
 type vfPeek struct {
-	State                             uint32
-	CWND, RWND, SSThresh              uint32
-	InflightBytes, InflightN          int
-	PendingBytes, PendingN            int
-	CumAck, NextTSN, PeerLast, AdvPt  uint32
-	RecvQ                             int
-	MyRwnd                            uint32
-	ReasmBytes                        int
-	InFR                              bool
-	T3, NStreams                      int
-	SRTT                              float64
+	State                            uint32
+	CWND, RWND, SSThresh             uint32
+	InflightBytes, InflightN         int
+	PendingBytes, PendingN           int
+	CumAck, NextTSN, PeerLast, AdvPt uint32
+	RecvQ                            int
+	MyRwnd                           uint32
+	ReasmBytes                       int
+	InFR                             bool
+	T3, NStreams                     int
+	SRTT                             float64
 }
 
 func vfPeekAssoc(a *Association) vfPeek {
